@@ -98,8 +98,43 @@ MAXB = (1, 2, 3, 4, 8)
 FEED = (b"a", b"b")
 
 
+class _Once:
+    """Awaitable that suspends exactly once."""
+
+    def __await__(self):
+        yield None
+
+
+class PendingObjSrc(ObjSrc):
+    """The wrapped stream's receive() really waits once before handing out the next chunk."""
+
+    async def receive(self) -> bytes:
+        await _Once()
+        return await super().receive()
+
+
+class PendingByteSrc(ByteSrc):
+    async def receive(self, max_bytes: int = 65536) -> bytes:
+        await _Once()
+        return await super().receive(max_bytes)
+
+
+def drive_with_feed(coro, stream, data):
+    """Run the coroutine up to its (single) suspension inside the wrapped stream, feed data into
+    the buffer while it is pending, then let it finish."""
+    try:
+        coro.send(None)
+    except StopIteration as e:
+        return ("ok", e.value), False
+    except (EndOfStream, IncompleteRead, DelimiterNotFound, ValueError) as e:
+        return ("exc", type(e).__name__), False
+    stream.feed_data(data)
+    return drive(coro), True
+
+
 def ops():
     out = [("receive", n) for n in RECV_N]
+    out += [("receive_feed", n, x) for n in (1, 2, 65536) for x in FEED]
     out += [("receive_exactly", n) for n in EXACT_N]
     out += [("receive_until", d, m) for d in DELIMS for m in MAXB]
     out += [("feed_data", x) for x in FEED]
@@ -111,10 +146,16 @@ OPS = ops()
 
 def step(state, op):
     kind, buf, chunks = state
-    src = (ByteSrc if kind == "byte" else ObjSrc)(chunks)
+    if op[0] == "receive_feed":
+        src = (PendingByteSrc if kind == "byte" else PendingObjSrc)(chunks)
+    else:
+        src = (ByteSrc if kind == "byte" else ObjSrc)(chunks)
     s = BufferedByteReceiveStream(src)
     if buf:
         s.feed_data(buf)
+    if op[0] == "receive_feed":
+        res, fed = drive_with_feed(s.receive(op[1]), s, op[2])
+        return res + (fed,), (kind, s.buffer, tuple(src.chunks))
     if op[0] == "receive":
         res = drive(s.receive(op[1]))
     elif op[0] == "receive_exactly":
@@ -135,6 +176,19 @@ def oracle(state, op, res, new):
     o = op[0]
     if res[0] == "exc" and res[1].startswith("UNEXPECTED"):
         return f"{op} raised {res[1]}"
+    if o == "receive_feed":
+        # feed_data() while receive() is waiting for the wrapped stream: whatever order the
+        # bytes end up in, none may be dropped or duplicated
+        fed = res[2]
+        before = R + (op[2] if fed else b"")
+        out = res[1] if res[0] == "ok" else b""
+        if res[0] == "ok" and not (1 <= len(out) <= op[1]):
+            return f"receive({op[1]}) returned {len(out)} bytes"
+        if sorted(out + R2) != sorted(before):
+            return (f"receive({op[1]}) with feed_data({op[2]!r}) while it was waiting: had "
+                    f"{R!r} unread, returned {out!r} ({res[1] if res[0] != 'ok' else 'ok'}), "
+                    f"unread now {R2!r} - bytes were dropped or duplicated")
+        return None
     if o == "feed_data":
         if new[1] != buf + op[1] or new[2] != chunks:
             return f"feed_data({op[1]!r}): buffer {buf!r} -> {new[1]!r}"
@@ -226,7 +280,8 @@ def bfs(args):
         nxt = []
         for st in frontier:
             for op in OPS:
-                if op[0] == "feed_data" and len(st[1]) + sum(map(len, st[2])) >= maxtotal:
+                if op[0] in ("feed_data", "receive_feed") and (
+                        len(st[1]) + sum(map(len, st[2])) >= maxtotal):
                     continue
                 try:
                     res, new = step(st, op)
@@ -303,13 +358,22 @@ ALPHABET = ["a", "é", "€", "\U0001F600"]
 ENCODINGS = ["utf-8", "utf-16", "utf-32", "latin-1", "utf-16-le"]
 
 
+class TransportFailed(Exception):
+    pass
+
+
 class Pipe:
     """Object stream of bytes: collects what is sent; used for send -> receive identity."""
 
-    def __init__(self):
+    def __init__(self, fail_at=None):
         self.sent = []
+        self.calls = 0
+        self.fail_at = fail_at
 
     async def send(self, item):
+        self.calls += 1
+        if self.calls - 1 == self.fail_at:
+            raise TransportFailed()  # nothing of this item was delivered
         self.sent.append(bytes(item))
 
     async def aclose(self):
@@ -368,13 +432,28 @@ def check_text(maxlen):
                         if len(bad) >= 5:
                             return n, len(classes), bad
             # send side: every way of cutting the string into pieces sent one by one, re-chunked
-            for pieces in chunkings(tuple(s)):
-                pipe = Pipe()
+            for pieces, fail_at in [(pc, f) for pc in chunkings(tuple(s))
+                                    for f in [None] + list(range(1, len(pc)))]:
+                # (fail_at: that send() - not the first one, whose loss would take the byte
+                # order mark with it - fails in the transport without delivering anything; the
+                # text of the sends that succeeded must still come out unchanged)
+                pipe = Pipe(fail_at)
                 ss = TextSendStream(pipe, encoding=enc)
-                for p in pieces:
-                    r = drive(ss.send("".join(p)))
+                delivered = []
+                for k, p in enumerate(pieces):
+                    try:
+                        r = drive(ss.send("".join(p)))
+                    except Suspended:
+                        r = ("exc", "suspended")
+                    if k == fail_at:
+                        if r[0] == "ok":
+                            bad.append({"text": s, "encoding": enc,
+                                        "what": "send() swallowed the transport's error"})
+                        continue
+                    delivered.append("".join(p))
                     if r[0] != "ok":
                         bad.append({"text": s, "encoding": enc, "what": f"send raised {r}"})
+                s_expected = "".join(delivered)
                 blob = b"".join(pipe.sent)
                 for ch in text_chunkings(blob):
                     rs = TextReceiveStream(ObjSrc(ch), encoding=enc)
@@ -385,11 +464,12 @@ def check_text(maxlen):
                             break
                         got.append(r[1])
                     n += 1
-                    if "".join(got) != s:
+                    if "".join(got) != s_expected:
                         bad.append({"text": s, "encoding": enc,
                                     "pieces": ["".join(p) for p in pieces],
+                                    "failed_send": fail_at,
                                     "what": f"TextSendStream -> TextReceiveStream gave "
-                                            f"{''.join(got)!r} instead of {s!r}"})
+                                            f"{''.join(got)!r} instead of {s_expected!r}"})
                         if len(bad) >= 5:
                             return n, len(classes), bad
                         break
